@@ -39,9 +39,9 @@ def run_case(case):
     obs = Obs()
     specs = case["frames"]
     driver = case.get("driver", "data_frame")
-    cf = case.get("cf", True) and driver != "recv"
-    fire = bool(case.get("fire")) and driver != "recv"
-    skip = bool(case.get("skip")) and driver != "recv"
+    cf = case.get("cf", True) and driver not in rx.RECVS
+    fire = bool(case.get("fire")) and driver not in rx.RECVS
+    skip = bool(case.get("skip")) and driver not in rx.RECVS
     resume = bool(case.get("resume"))
     events, ws, fs, frames, ends, wire = rx.run_stream(specs, case.get("cuts", []), driver, cf, fire, skip, resume=resume)
     want, wwr = rx.expected_events(frames, ends, len(wire), driver, cf, fire, skip, resume=resume)
@@ -148,11 +148,11 @@ def sub_d(length, first_syms):
                 fin, op = SYMS[s]
                 specs.append({"fin": fin, "op": op, "p": bytes([97 + i]) if op != rm.PING else bytes([48 + i]) * (i % 3)})
             h = hash(hist) if False else sum((SYM_NAMES.index(s) + 1) * (i + 3) for i, s in enumerate(hist))
-            yield {"sub": f"D{length}", "frames": specs, "k": hist, "driver": ("data_frame", "data", "recv")[h % 3] , "cf": bool(h & 1)}
+            yield {"sub": f"D{length}", "frames": specs, "k": hist, "driver": ("data_frame", "data", "recv", "iter", "next")[h % 5], "cf": bool(h & 1)}
             # same history with per-fragment delivery (fire_cont_frame=True): sequencing must be policed there as well
             yield {"sub": f"D{length}", "frames": specs, "k": hist, "driver": ("data_frame", "data")[h % 2], "cf": bool(h & 2), "fire": True}
             # the application catches a rejection and keeps receiving: later frames are still judged correctly
-            yield {"sub": f"D{length}", "frames": specs, "k": hist, "driver": ("data_frame", "recv", "data")[h % 3], "cf": bool(h & 1), "resume": True, "fire": h % 5 == 0}
+            yield {"sub": f"D{length}", "frames": specs, "k": hist, "driver": ("data_frame", "recv", "data", "next", "iter")[h % 5], "cf": bool(h & 1), "resume": True, "fire": h % 5 == 0}
 
 
 @st.composite
@@ -188,8 +188,8 @@ def mixes(draw):
     cut = next((i for i, s in enumerate(specs) if s["op"] == rm.CLOSE), None)
     if cut is not None:
         specs = specs[: cut + 1]
-    driver = draw(st.sampled_from(["data_frame", "data", "recv"]))
-    return {"sub": "mix:" + kind, "frames": specs, "driver": driver, "cf": draw(st.booleans()) if driver != "recv" else False,
+    driver = draw(st.sampled_from(["data_frame", "data", "recv", "next", "iter"]))
+    return {"sub": "mix:" + kind, "frames": specs, "driver": driver, "cf": draw(st.booleans()) if driver not in rx.RECVS else False,
             "fire": draw(st.integers(0, 2)) == 0, "skip": draw(st.integers(0, 3)) == 0, "resume": draw(st.integers(0, 2)) == 0}
 
 
